@@ -883,13 +883,15 @@ func specXRRepresentable(bs []ReportBlock, n int) bool {
 }
 
 // lemmaRoundTripXR (C15, C02): decode(encode(p)) has the same blocks, in order, each of the kind it was sent as.
-func lemmaRoundTripXR(p ExtendedReport) (q ExtendedReport, err, err2 error) {
+// orig is a deep copy of p taken before Marshal (which fills in the block headers of p itself).
+func lemmaRoundTripXR(p ExtendedReport) (orig, q ExtendedReport, err, err2 error) {
+	orig = *(specClonePacket(&p).(*ExtendedReport))
 	b, err := p.Marshal()
 	if err != nil {
-		return q, err, nil
+		return orig, q, err, nil
 	}
 	err2 = q.Unmarshal(b)
-	return q, nil, err2
+	return orig, q, nil, err2
 }
 
 // lemmaReencodeXR (C15, C09): encode(decode(raw)) decodes again to the same blocks; opaque blocks keep their type,
